@@ -1,9 +1,6 @@
 ---- MODULE TraceRangePool ----
 \* Verdict for single operations of the real range_vector (each event is one call on a pool whose ring was set to a reachable state of RangePool):
 \*   Op op arg grain pre post      pre / post: the live ranges from front() to back() as <<lo, hi, depth>>
-\* split_to_fill must not lose, duplicate or reorder iterations: the pieces after the call are non-empty, adjacent (front = highest indices), cover exactly what
-\* the pool covered before, leave every range but back() untouched, never exceed the depth limit (unless the range was already deeper) and never split a range
-\* that is not divisible; the pops remove exactly the addressed end.
 EXTENDS Integers, Sequences, FiniteSets, TLC, Json, IOUtils
 TraceLog == ndJsonDeserialize(IOEnv.TRACE)
 VARIABLES l
@@ -11,18 +8,20 @@ Ev == TraceLog[l]
 Lo(r) == r[1]  Hi(r) == r[2]  Dp(r) == r[3]
 Adjacent(s) == \A i \in 1..(Len(s) - 1) : Lo(s[i]) = Hi(s[i + 1])
 NonEmpty(s) == \A i \in DOMAIN s : Lo(s[i]) < Hi(s[i])
+\* The verdict is about iterations, not about the shape of the pool (which end is split, depth bookkeeping, when the loop stops - those are compared with the
+\* transcription as drift): after split_to_fill the pieces are non-empty, pairwise disjoint, each lies inside one range of the pool before, together they cover exactly
+\* what the pool covered, and a range was cut only if it was divisible (longer than the grain).  The pops remove exactly one range from the addressed end.
+Idx(s) == UNION {Lo(s[i])..(Hi(s[i]) - 1) : i \in DOMAIN s}
+Disjoint(s) == \A i, j \in DOMAIN s : i # j => (Hi(s[i]) <= Lo(s[j]) \/ Hi(s[j]) <= Lo(s[i]))
+Inside(r, q) == Lo(q) <= Lo(r) /\ Hi(r) <= Hi(q)
 Good(e) == LET pre == e.pre  post == e.post  n == Len(e.pre) IN
-    /\ NonEmpty(post) /\ Adjacent(post)
+    /\ NonEmpty(post) /\ Disjoint(post)
     /\ IF e.op = "back" THEN post = SubSeq(pre, 1, n - 1)
        ELSE IF e.op = "front" THEN post = SubSeq(pre, 2, n)
-       ELSE /\ Len(post) >= n /\ Len(post) <= 8
-            /\ SubSeq(post, 1, n - 1) = SubSeq(pre, 1, n - 1)                                   \* everything but back() untouched
-            /\ Hi(post[n]) = Hi(pre[n]) /\ Lo(post[Len(post)]) = Lo(pre[n])                       \* the pieces of back() cover back() (adjacency does the rest)
-            /\ \A i \in n..Len(post) : Dp(post[i]) <= (IF Dp(pre[n]) > e.arg THEN Dp(pre[n]) ELSE e.arg) /\ Dp(post[i]) >= Dp(pre[n])
-            /\ (Len(post) > n => (e.grain < Hi(pre[n]) - Lo(pre[n]) /\ Dp(pre[n]) < e.arg))        \* split only a divisible, shallow enough back()
-            /\ (Len(post) = n => post[n] = pre[n])
-            \* the loop stops only when the pool is full, or back() is at the depth limit, or back() is no longer divisible
-            /\ (Len(post) = 8 \/ Dp(post[Len(post)]) >= e.arg \/ ~(e.grain < Hi(post[Len(post)]) - Lo(post[Len(post)])))
+       ELSE /\ Idx(post) = Idx(pre) /\ Len(post) <= 8
+            /\ \A i \in DOMAIN post : \E j \in DOMAIN pre : Inside(post[i], pre[j])
+            /\ \A j \in DOMAIN pre : (\E i \in DOMAIN post : Inside(post[i], pre[j]) /\ (Lo(post[i]) # Lo(pre[j]) \/ Hi(post[i]) # Hi(pre[j])))
+                                       => e.grain < Hi(pre[j]) - Lo(pre[j])
 TInit == l = 1
 TNext == l <= Len(TraceLog) /\ ((Ev.e = "Op" /\ Good(Ev)) \/ Ev.e = "Reset") /\ l' = l + 1
 TraceSpec == TInit /\ [][TNext]_l
